@@ -224,6 +224,13 @@ struct Runner {
 	Env env;
 	Pol pol;
 	Pool *pool = nullptr;
+	// half of the histories go through the slab_allocator front end (the class containers are given as their Allocator)
+	bool via_wrapper = false;
+	void *api_allocate(size_t n) { if(via_wrapper) { frg::slab_allocator w(pool); return w.allocate(n); } return pool->allocate(n); }
+	void *api_realloc(void *q, size_t n) { if(via_wrapper) { frg::slab_allocator w(pool); return w.reallocate(q, n); } return pool->realloc(q, n); }
+	void api_free(void *q) { if(via_wrapper) { frg::slab_allocator w(pool); w.free(q); } else pool->free(q); }
+	void api_deallocate(void *q, size_t n) { if(via_wrapper) { frg::slab_allocator w(pool); w.deallocate(q, n); } else pool->deallocate(q, n); }
+	size_t api_get_size(void *q) { if(via_wrapper) { frg::slab_allocator w(pool); return w.get_size(q); } return pool->get_size(q); }
 	std::vector<Block> live;
 	std::vector<std::pair<uintptr_t, size_t>> live_ext;
 	std::map<size_t, long> inc_by_len;
@@ -336,7 +343,7 @@ struct Runner {
 		if(poison) VCHECK(c, "C03", accessible(b.p, n1), "%s: the %zu requested bytes at %#lx are not all unpoisoned", what, n1, (unsigned long)b.p);
 	}
 	void touch(const Block &b, const char *what) {
-		size_t s = pool->get_size((void *)b.p);
+		size_t s = api_get_size((void *)b.p);
 		VCHECK(c, "C01", s == b.rep, "%s: get_size(%#lx) changed from %zu to %zu while the block lives", what, (unsigned long)b.p, b.rep, s);
 		if(poison) VCHECK(c, "C03", accessible(b.p, std::max<size_t>(b.req, 1)), "%s: requested bytes of the live block at %#lx became poisoned", what, (unsigned long)b.p);
 	}
@@ -386,7 +393,7 @@ struct Runner {
 		int k = class_of(n, info.nb);
 		begin_call(k, k >= 0, 0);
 		unsigned maps_before = env.map_calls;
-		void *p = via_realloc_null ? pool->realloc(nullptr, n) : pool->allocate(n);
+		void *p = via_realloc_null ? api_realloc(nullptr, n) : api_allocate(n);
 		unsigned maps = env.map_calls - maps_before;
 		if(env.failed_in_call) {
 			VCHECK(c, "C04", p == nullptr, "%s: Policy::map returned 0 during the call but it returned %p", what, p);
@@ -396,7 +403,7 @@ struct Runner {
 			// the same request succeeds as soon as mapping succeeds again
 			env.faults_suspended = true;
 			begin_call(k, k >= 0, 0);
-			p = pool->allocate(n);
+			p = api_allocate(n);
 			env.faults_suspended = false;
 			VCHECK(c, "C04", p != nullptr, "%s: the request still fails after mapping works again", what);
 			c.tag("fault-hit");
@@ -404,7 +411,7 @@ struct Runner {
 		VCHECK(c, "C01", p != nullptr, "%s returned null although mapping did not fail", what);
 		live.push_back(Block{(uintptr_t)p, n, 0, next_seed++, k});
 		Block &b = live.back();
-		b.rep = pool->get_size(p);
+		b.rep = api_get_size(p);
 		sync_ext();
 		birth_checks(b, what);
 		fill(b);
@@ -447,8 +454,8 @@ struct Runner {
 		verify(b, what); touch(b, what);
 		begin_call(-1, false, b.p);
 		live.erase(live.begin() + idx); sync_ext();
-		if(how == 0) pool->free((void *)b.p);
-		else pool->deallocate((void *)b.p, how == 1 ? std::max<size_t>(b.req, 0) : b.rep);
+		if(how == 0) api_free((void *)b.p);
+		else api_deallocate((void *)b.p, how == 1 ? std::max<size_t>(b.req, 0) : b.rep);
 		release_checks(b, what);
 		end_call(what);
 		verify_all(what);
@@ -459,7 +466,7 @@ struct Runner {
 		if(n == 0) {
 			begin_call(-1, false, old.p);
 			live.erase(live.begin() + idx); sync_ext();
-			void *q = pool->realloc((void *)old.p, 0);
+			void *q = api_realloc((void *)old.p, 0);
 			VCHECK(c, "C02", q == nullptr, "realloc(p, 0) returned %p", q);
 			release_checks(old, what);
 			end_call(what);
@@ -470,7 +477,7 @@ struct Runner {
 		take_snapshot();
 		begin_call(k, k >= 0, old.p);
 		unsigned maps_before = env.map_calls;
-		void *q = pool->realloc((void *)old.p, n);
+		void *q = api_realloc((void *)old.p, n);
 		if(env.map_calls != maps_before) g_last_sites |= 8;
 		if(env.failed_in_call) {
 			VCHECK(c, "C04", q == nullptr, "%s: Policy::map returned 0 during the call but it returned %p", what, q);
@@ -481,7 +488,7 @@ struct Runner {
 			c.tag("fault-hit"); c.tag("fault-in-realloc");
 			env.faults_suspended = true;
 			begin_call(k, k >= 0, old.p);
-			q = pool->realloc((void *)old.p, n);
+			q = api_realloc((void *)old.p, n);
 			env.faults_suspended = false;
 			VCHECK(c, "C04", q != nullptr, "%s: the request still fails after mapping works again", what);
 		}
@@ -489,7 +496,7 @@ struct Runner {
 		Block nb{(uintptr_t)q, n, 0, old.seed, k, old.filled};
 		if((uintptr_t)q == old.p) {
 			inplace = true;
-			nb.rep = pool->get_size(q);
+			nb.rep = api_get_size(q);
 			VCHECK_OWN(c, "C01", nb.rep == old.rep, "%s: in-place realloc changed the reported size from %zu to %zu", what, old.rep, nb.rep);
 			VCHECK_OWN(c, "C01", nb.rep >= n, "%s: in-place realloc to %zu bytes of a block of reported size %zu", what, n, nb.rep);
 			nb.klass = old.klass;
@@ -502,7 +509,7 @@ struct Runner {
 			live.erase(live.begin() + idx);
 			live.push_back(nb);
 			Block &b = live.back();
-			b.rep = pool->get_size(q);
+			b.rep = api_get_size(q);
 			sync_ext();
 			birth_checks(b, what);
 			release_checks(old, what);
@@ -557,6 +564,7 @@ struct Runner {
 
 		unsigned nops = 1 + t.pick(40);
 		if(t.pick(6) == 0) nops += t.pick(360);
+		via_wrapper = nops & 1; if(via_wrapper) c.tag("via-slab_allocator");
 		char what[160];
 		for(unsigned i = 0; i < nops && !t.done(); i++) {
 			unsigned op = t.pick(18);
@@ -576,9 +584,9 @@ struct Runner {
 			case 11: { size_t n = gen_size(); snprintf(what, sizeof what, "realloc(null, %zu)", n); c.op("%s", what); do_alloc(n, what, true); break; }
 			case 12: if(!live.empty()) { size_t idx = t.pick(live.size()); snprintf(what, sizeof what, "realloc(#%zu, 0)", idx); c.op("%s", what); do_realloc(idx, 0, what); } break;
 			case 13: { unsigned cb = env.callbacks; long u = (long)pool->numUsedPages(); begin_call(-1, false, 0);
-				if(t.flip()) { c.op("free(null)"); pool->free(nullptr); } else { size_t k = t.pick(100000); c.op("deallocate(null, %zu)", k); pool->deallocate(nullptr, k); }
+				if(t.flip()) { c.op("free(null)"); api_free(nullptr); } else { size_t k = t.pick(100000); c.op("deallocate(null, %zu)", k); api_deallocate(nullptr, k); }
 				VCHECK(c, "C02", env.callbacks == cb && (long)pool->numUsedPages() == u, "free/deallocate of null made %u policy calls / changed the page counter", env.callbacks - cb);
-				VCHECK(c, "C02", pool->get_size(nullptr) == 0, "get_size(null) is not 0");
+				VCHECK(c, "C02", api_get_size(nullptr) == 0, "get_size(null) is not 0");
 				end_call("free(null)"); verify_all("free(null)"); break; }
 			case 14: if(!live.empty()) { size_t idx = t.pick(live.size()); c.op("get_size(#%zu)", idx); touch(live[idx], "get_size"); verify(live[idx], "get_size"); } break;
 			case 15: case 16: {   // churn: allocate k blocks of one class, free them in a generated order, r rounds
